@@ -1222,3 +1222,156 @@ pub fn c08_resets_test(_w: &mut (), c: &ResetsThenService) -> Verdict {
         },
     }
 }
+
+// ------------------------------------------------------------------------------------------
+// C15 over real sockets: a client that does not read at all, for a long while, and then vanishes.
+// The response is far larger than what the socket buffers absorb, so respond() is still writing
+// when the client goes: it returns success, the server serves others meanwhile.
+
+#[derive(Clone, Debug, Serialize, Deserialize)]
+pub struct StalledClient {
+    pub tcp: bool,
+    pub chunked: bool,
+    pub size_mb: usize,
+    /// how long the client reads nothing before it goes
+    pub stall_ms: u64,
+    /// 0 orderly close, 1 reset (SO_LINGER 0), 2 half-close of the sending side first, then close
+    pub end: u8,
+    /// bytes of the response the client reads before it stops reading
+    pub read_first: usize,
+}
+
+pub fn c15_stalled_strategy(stall_lo: u64, stall_hi: u64) -> BoxedStrategy<StalledClient> {
+    (any::<bool>(), any::<bool>(), 8usize..32, stall_lo..=stall_hi, 0u8..3, prop_oneof![Just(0usize), Just(100usize), 1000usize..200_000])
+        .prop_map(|(tcp, chunked, size_mb, stall_ms, end, read_first)| StalledClient { tcp, chunked, size_mb, stall_ms, end, read_first })
+        .boxed()
+}
+
+pub fn c15_stalled_test(_w: &mut (), c: &StalledClient) -> Verdict {
+    use std::os::unix::io::AsRawFd;
+    let trivial = |why: &str| Verdict::Pass(Good::trivial().class(format!("scenario-not-set-up:{}", why)));
+    let path = format!("{}/target/tmp/c15s-{}-{:?}.sock", vcore::report::verif_root(), std::process::id(), std::thread::current().id());
+    let _ = std::fs::remove_file(&path);
+    let server = if c.tcp { tiny_http::Server::http("127.0.0.1:0") } else { tiny_http::Server::http_unix(std::path::Path::new(&path)) };
+    let Ok(server) = server else { return trivial("bind") };
+    let server = Arc::new(server);
+    let addr = server.server_addr();
+    let connect = || -> std::io::Result<Cs> {
+        match &addr {
+            tiny_http::ListenAddr::IP(a) => std::net::TcpStream::connect_timeout(a, Duration::from_secs(2)).map(Cs::T),
+            tiny_http::ListenAddr::Unix(_) => std::os::unix::net::UnixStream::connect(&path).map(Cs::U),
+        }
+    };
+    let Ok(mut client) = connect() else { return trivial("connect") };
+    if client.w(b"GET /big HTTP/1.1\r\nHost: h\r\n\r\n").is_err() {
+        return trivial("send");
+    }
+    let Ok(Some(rq)) = server.recv_timeout(Duration::from_secs(10)) else { return trivial("request-did-not-arrive") };
+    let n = c.size_mb << 20;
+    let chunked = c.chunked;
+    let (tx, rx) = std::sync::mpsc::channel();
+    let t0 = Instant::now();
+    let h = std::thread::spawn(move || {
+        let body = std::io::repeat(b'x').take(n as u64);
+        let resp = tiny_http::Response::new(tiny_http::StatusCode(200), vec![], body, if chunked { None } else { Some(n) }, None);
+        let r = std::panic::catch_unwind(std::panic::AssertUnwindSafe(|| rq.respond(resp)));
+        let _ = tx.send((r.map(|r| r.map_err(|e| format!("{:?}: {}", e.kind(), e))).map_err(|_| ()), t0.elapsed()));
+    });
+    // the client reads a little, then nothing
+    if c.read_first > 0 {
+        let mut got = 0;
+        let mut b = [0u8; 4096];
+        match &mut client {
+            Cs::T(s) => {
+                let _ = s.set_read_timeout(Some(Duration::from_secs(5)));
+            }
+            Cs::U(s) => {
+                let _ = s.set_read_timeout(Some(Duration::from_secs(5)));
+            }
+        }
+        while got < c.read_first {
+            let want = (c.read_first - got).min(b.len());
+            let r = match &mut client {
+                Cs::T(s) => s.read(&mut b[..want]),
+                Cs::U(s) => s.read(&mut b[..want]),
+            };
+            match r {
+                Ok(0) | Err(_) => break,
+                Ok(k) => got += k,
+            }
+        }
+    }
+    // meanwhile somebody else is served
+    std::thread::sleep(Duration::from_millis(c.stall_ms / 2));
+    let mut other_served = None;
+    if let Ok(mut p) = connect() {
+        let _ = p.w(b"GET /other HTTP/1.1\r\nHost: h\r\nConnection: close\r\n\r\n");
+        match server.recv_timeout(Duration::from_secs(10)) {
+            Ok(Some(rq2)) => {
+                let _ = rq2.respond(tiny_http::Response::from_string("other"));
+                let got = p.read_all(Duration::from_secs(5));
+                other_served = Some(got.starts_with(b"HTTP/1.1 200") && got.ends_with(b"other"));
+            }
+            _ => other_served = Some(false),
+        }
+    }
+    let spent = t0.elapsed();
+    if spent < Duration::from_millis(c.stall_ms) {
+        std::thread::sleep(Duration::from_millis(c.stall_ms) - spent);
+    }
+    // did respond() come back while the client was still there?  Then everything fitted into the
+    // socket buffers (or respond gave up on a client that had done nothing but be slow)
+    let early = rx.try_recv().ok();
+    match c.end {
+        1 => {
+            let fd = match &client {
+                Cs::T(s) => s.as_raw_fd(),
+                Cs::U(s) => s.as_raw_fd(),
+            };
+            let l = libc::linger { l_onoff: 1, l_linger: 0 };
+            unsafe {
+                libc::setsockopt(fd, libc::SOL_SOCKET, libc::SO_LINGER, &l as *const _ as *const libc::c_void, std::mem::size_of::<libc::linger>() as libc::socklen_t);
+            }
+        }
+        2 => {
+            let _ = match &client {
+                Cs::T(s) => s.shutdown(std::net::Shutdown::Write),
+                Cs::U(s) => s.shutdown(std::net::Shutdown::Write),
+            };
+            std::thread::sleep(Duration::from_millis(20));
+        }
+        _ => {}
+    }
+    drop(client);
+    let kind = format!("{}/{}", if c.tcp { "tcp" } else { "unix" }, if c.chunked { "chunked" } else { "identity" });
+    let outcome = match early {
+        Some(o) => Some(o),
+        None => rx.recv_timeout(Duration::from_secs(40)).ok(),
+    };
+    let was_early = early_flag(&outcome, c.stall_ms);
+    let verdict = match outcome {
+        None => {
+            // the thread is still inside respond(): leave it behind
+            return fail(format!("C15/sock/stalled-client/{}/respond-hangs", kind), format!("respond() had not returned 40 s after the client, which had read nothing for {} ms, was gone", c.stall_ms));
+        }
+        Some((Err(()), _)) => fail(format!("C15/sock/stalled-client/{}/respond-panicked", kind), "panic inside respond()".to_string()),
+        Some((Ok(Err(e)), at)) => fail(
+            format!("C15/sock/stalled-client/{}/respond-returned-error", kind),
+            format!("respond() = Err({}) after {} ms; the client read {} bytes, then nothing for {} ms, then went away (end kind {})", e, at.as_millis(), c.read_first, c.stall_ms, c.end),
+        ),
+        Some((Ok(Ok(())), _)) => {
+            if other_served == Some(false) {
+                fail(format!("C15/sock/stalled-client/{}/others-not-served", kind), "a second connection got no answer while the first client was not reading".to_string())
+            } else {
+                let g = if was_early { Good::trivial().class("response-fitted-into-the-buffers") } else { Good::nontrivial() };
+                Verdict::Pass(g.class(kind.clone()).class(format!("end={}", c.end)).class(format!("stall>={}s", c.stall_ms / 1000)).class_if(c.read_first > 0, "read-a-little-first"))
+            }
+        }
+    };
+    let _ = h.join();
+    verdict
+}
+
+fn early_flag(o: &Option<(Result<Result<(), String>, ()>, Duration)>, stall_ms: u64) -> bool {
+    matches!(o, Some((_, at)) if at.as_millis() < stall_ms as u128)
+}
